@@ -146,6 +146,11 @@ FIXED += [
   'Unpack(r, ".") refused every entry as a traversal (also before this session); Unpack(r, "dst") with in-tree links refused them as external since the physical link check of fix 39 compared a relative path with the absolute destination'),
 ]
 
+FIXED += [
+ ("C06", "sub-path-needs-url-escaping", "fix: relative resolution refuses a registry sub-path that cannot be written",
+  'ResolveRelativeSource(registry source, "./a?b") produced a registry address whose printed form "…//a?b" is not a registry address and does not parse'),
+]
+
 OPEN = [
  # (property, key, what fails)
  ("C06", "edge-whitespace",
